@@ -37,6 +37,110 @@ type sdScenario struct {
 	Opts bool `json:"opts"`
 	// Mermaid: also draw each plain start with the Mermaid sequence generator (beyond the listed properties)
 	Mermaid bool `json:"mermaid"`
+	// Project: also draw up to four endpoints as the diagrams of a project application (`sysl sd -o %(epname).puml -a Proj`):
+	// one called endpoint is a blackbox of the project, and the second diagram names the same blackbox itself
+	Project bool `json:"project"`
+}
+
+// sdProject appends a project application to the program and draws its diagrams; every diagram becomes a trace of its own
+// whose begin event carries the blackboxes of the project (pcut) and of the diagram (cut).
+func sdProject(w *tr.Writer, sc sdScenario, files []*render.File, eps []sdEp, nextID func() int) {
+	var starts [][]string
+	var called [][]string
+	var walk func(ss []sdStmt)
+	walk = func(ss []sdStmt) {
+		for _, s := range ss {
+			if s.K == "call" {
+				called = append(called, []string{s.App, s.Ep})
+			}
+			walk(s.Kids)
+		}
+	}
+	for _, e := range eps {
+		if len(e.Stmts) > 0 && len(starts) < 4 && !strings.Contains(e.Ep, "->") {
+			starts = append(starts, []string{e.App, e.Ep})
+		}
+		walk(e.Stmts)
+	}
+	// the blackbox: a called endpoint that is not itself drawn as a diagram of the project
+	var bb []string
+	for _, c := range called {
+		isStart := false
+		for _, st := range starts {
+			isStart = isStart || (st[0] == c[0] && st[1] == c[1])
+		}
+		if !isStart {
+			bb = c
+			break
+		}
+	}
+	if len(starts) < 3 || bb == nil {
+		return
+	}
+	key := bb[0] + " <- " + bb[1]
+	lines := []string{fmt.Sprintf("Proj [blackboxes=[[%q, \"cut at the level of the project\"]]]:", key)}
+	names := []string{}
+	cuts := map[string][][]string{}
+	for i, st := range starts {
+		n := fmt.Sprintf("SEQ-%c", 'A'+i)
+		h := "    " + n
+		cuts[n] = [][]string{}
+		if i == 1 {
+			h += fmt.Sprintf(" [blackboxes=[[%q, \"cut at the level of the diagram\"]]]", key)
+			cuts[n] = [][]string{bb}
+		}
+		lines = append(lines, h+":", "        "+st[0]+" <- "+st[1])
+		names = append(names, n)
+	}
+	fs := []*render.File{{Name: files[0].Name, Lines: append(append([]string{}, files[0].Lines...), lines...)}}
+	fs = append(fs, files[1:]...)
+	cr := compileFiles(fs, "main.sysl")
+	if cr.panic != "" || cr.err != nil {
+		return
+	}
+	type res struct {
+		out map[string]string
+		err error
+		pan string
+	}
+	ch := make(chan res, 1)
+	go func() {
+		var r res
+		defer func() {
+			if p := recover(); p != nil {
+				r.pan = fmt.Sprint(p)
+			}
+			ch <- r
+		}()
+		logger := logrus.New()
+		logger.SetOutput(io.Discard)
+		p := &cmdutils.CmdContextParamSeqgen{Output: "%(epname).puml", AppsFlag: []string{"Proj"}, Title: "t",
+			AppFormat: "%(appname)", EndpointFormat: "%(epname)"}
+		r.out, r.err = sequencediagram.DoConstructSequenceDiagrams(p, cr.m, logger)
+	}()
+	var r res
+	select {
+	case r = <-ch:
+	case <-time.After(30 * time.Second):
+		r.pan = "timeout"
+	}
+	for i, n := range names {
+		id := nextID()
+		st := starts[i]
+		begin := tr.Ev{"t": id, "e": "begin", "scn": sc.ID, "start": st[0] + " <- " + st[1], "sapp": st[0], "sep": st[1], "eps": eps,
+			"cut": cuts[n], "pcut": [][]string{bb}, "groups": map[string]string{}, "group": "", "project": n}
+		evs := []tr.Ev{begin}
+		switch {
+		case r.pan != "":
+			evs = append(evs, tr.Ev{"t": id, "e": map[bool]string{true: "timeout", false: "panic"}[r.pan == "timeout"], "msg": r.pan})
+		case r.err != nil:
+			evs = append(evs, tr.Ev{"t": id, "e": "error", "msg": r.err.Error()})
+		default:
+			evs = append(evs, sdParse(id, r.out[n+".puml"])...)
+			evs = append(evs, tr.Ev{"t": id, "e": "end"})
+		}
+		w.EmitAll(evs)
+	}
 }
 
 var (
@@ -398,6 +502,9 @@ func runSeqDiag(in, out string, _ []string) error {
 				evs = append(evs, sdMermaid(cr.m, id, parts[0], parts[1], sc.Raw))
 			}
 			w.EmitAll(evs)
+		}
+		if sc.Project {
+			sdProject(w, sc, res.Files, eps, func() int { id++; return id })
 		}
 		return nil
 	})
